@@ -13,8 +13,8 @@ PARTIAL = ("Proved: from an item boundary (state 0 of any frame, any depth) an u
            "item - well-formed or not - is parsed to the same observable outcome as without the item: same acceptance, same values at every depth, same "
            "callback invocations, same diagnostic classes in order (simulation Sim over all 15 states: positions, the dropped pending annotation and "
            "the stale 'current option' local cannot reach a value). Hypotheses of the per-form corollaries: the item boundary is not right after a "
-           "deprecated option and the frame's skip locals are clear (depth 0 / no pending ignore), which the skipper itself restores on exit; that "
-           "every reachable boundary has them clear is not proved as an invariant.")
+           "deprecated option and the frame's skip locals are clear (depth 0 / no pending ignore); the latter holds at every reachable boundary "
+           "(invariant pstep_inv / clear_at_boundary, so C12_insert_reachable needs no such hypothesis).")
 VARIANT = "asan"
 RULE = ("accepted texts (token lists with their item boundaries at every depth) x one boundary x a generated unknown item "
         "(assignment, list, append, call, plain/titled section with recursively generated content; nesting to the tier's depth); "
